@@ -84,6 +84,16 @@ def Chunk.isSuperrun (c : Chunk) : Bool :=
   | some (_ :: _), some rid => rid.startsWith "_"
   | _, _ => false
 
+/-- `is_superrun` is `bool(self.subruns) and self.run_id.startswith("_")`: with non-empty sub-runs and
+`run_id = None` (a legal product of `concatenate(allow_superrun=True)` across run ids) the real property
+raises `AttributeError` ('NoneType' object has no attribute 'startswith'); every caller of `is_superrun`,
+`promised_continuity`, `first_subrun`, `last_subrun` inherits it (`Err.other` in the canonical form).
+`Chunk.isSuperrun` below is the value of the property when it does not raise. -/
+def Chunk.isSuperrunBad (c : Chunk) : Bool :=
+  match c.subruns, c.runId with
+  | some (_ :: _), none => true
+  | _, _ => false
+
 def Chunk.promisedContinuity (c : Chunk) : Bool :=
   if !c.isSuperrun then true
   else
@@ -112,8 +122,8 @@ def splitRuns (runs : Option Runs) (t : Int) : Option Runs × Option Runs :=
     let (a, b) := splitRunsList t rs
     (popEmpty a, popEmpty b)
 
-/-- `Chunk.split(t, allow_early_split)` -/
-def Chunk.split (c : Chunk) (t : Int) (early : Bool) : Except Err (Chunk × Chunk) := do
+/-- `Chunk.split(t, allow_early_split)` for a chunk whose `is_superrun` does not raise -/
+def Chunk.splitCore (c : Chunk) (t : Int) (early : Bool) : Except Err (Chunk × Chunk) := do
   let t := max (min t c.stop) c.start
   let (d1, d2, t) ←
     if t = c.stop then pure (c.rows, [], t)
@@ -129,6 +139,15 @@ def Chunk.split (c : Chunk) (t : Int) (early : Bool) : Except Err (Chunk × Chun
   let c1 ← mkChunk c.dataType c.kind run1 c.start (max c.start t) d1 sub1 sup1 c.target
   let c2 ← mkChunk c.dataType c.kind run2 (max c.start t) (max t c.stop) d2 sub2 sup2 c.target
   pure (c1, c2)
+
+/-- `Chunk.split(t, allow_early_split)`.  When `is_superrun` raises (`isSuperrunBad`), the data are split first
+(so `CannotSplit` still wins), then `self.promised_continuity` raises `AttributeError`; nothing later runs. -/
+def Chunk.split (c : Chunk) (t : Int) (early : Bool) : Except Err (Chunk × Chunk) :=
+  if c.isSuperrunBad then
+    match c.splitCore t early with
+    | .error .cannotSplit => .error .cannotSplit
+    | _ => .error .other
+  else c.splitCore t early
 
 /-! ### merging of run annotations -/
 
@@ -249,7 +268,7 @@ def Chunk.firstSubrun (c : Chunk) : Option Run :=
 def Chunk.lastSubrun (c : Chunk) : Option Run :=
   if c.isSuperrun then c.subruns.bind (·.getLast?) else none
 
-def contStep (s : ContState) (c : Chunk) : Except Err ContState := do
+def contStepCore (s : ContState) (c : Chunk) : Except Err ContState := do
   let s := if s.lastRun != some c.runId then { s with lastEnd := none, lastSubrun := none, lastSubIsNone := false } else s
   let s ← if c.isSuperrun then
       if s.lastSubIsNone then throw Err.typeError
@@ -260,6 +279,11 @@ def contStep (s : ContState) (c : Chunk) : Except Err ContState := do
   | some e => if c.promisedContinuity && c.start != e then throw Err.valueError
   | none => pure ()
   pure { lastEnd := some c.stop, lastRun := some c.runId, lastSubrun := c.lastSubrun, lastSubIsNone := !c.isSuperrun }
+
+/-- one iteration of `continuity_check`: `chunk.is_superrun` is evaluated right after the run-id reset, so a
+chunk on which it raises stops the generator with `AttributeError` whatever the state -/
+def contStep (s : ContState) (c : Chunk) : Except Err ContState :=
+  if c.isSuperrunBad then .error .other else contStepCore s c
 
 /-- number of chunks yielded before the check fails (all of them if it never fails) -/
 def continuityCheck (cs : List Chunk) : Except Err Unit :=
